@@ -24,7 +24,9 @@ CapTable ==
     joy_ff    |-> <<"EV_SYN", "EV_KEY", "EV_ABS", "EV_FF">>,
     other     |-> <<"EV_SYN", "EV_SW">> ]
 
-\* the class the implementation is expected to report (drift only, never a verdict)
+\* the class of each capability set of the table, as the classification stands at the pinned commit (the comments in
+\* info.go name the hardware behind each set).  The statement's "joystick-like" / "standard keyboard" are these classes:
+\* a change that re-classifies one of the sets changes which hardware is playable (C20_HandlerClass)
 ExpectedHT ==
   [ std_kbd |-> "STD_KBD", std_kbd2 |-> "STD_KBD", nkro |-> "NKRO_KBD", mouse |-> "MOUSE", system |-> "SYSTEM",
     multimedia |-> "MULTIMEDIA", joy_abs |-> "JOYSTICK", joy_ff |-> "JOYSTICK", other |-> "UNKNOWN" ]
@@ -73,6 +75,7 @@ Judge(ln) ==
        \cup (IF {r[1] : r \in Observed(ln)} = Groups(ln.hs) THEN {} ELSE {"C20_SamePhys"})
        \cup (IF \A r \in Observed(ln) : r[1] \in Groups(ln.hs) => r[2] = TypeOf(ln.hs, r[1]) THEN {} ELSE {"C20_TypeRule"})
        \cup (IF Observed(ln) = Expected(ln.hs) THEN {} ELSE {"C20_OrderIndependent"})
+       \cup (IF \A i \in 1..n : ln.hs[i].ht = ExpectedHT[ln.hs[i].cls] THEN {} ELSE {"C20_HandlerClass"})
 
 ClassOf(ln) ==
   IF ln.ev # "norm" THEN ln.ev
